@@ -159,7 +159,13 @@ def gen_long_path_debt_cases(rng, N, modes=(False,), op="ewd"):
         for _k in range(rng.randint(0, 2)):
             deg[rng.randrange(1, spine - 1)] += rng.randint(0, 2)
         perm = list(range(n))
-        rng.shuffle(perm)
+        r3 = rng.random()
+        if r3 < 0.3:
+            perm.reverse()          # names decrease away from the sink: a sweep in name order burns one vertex at a time
+        elif r3 < 0.4:
+            pass                    # names increase away from the sink: one sweep burns the whole path
+        else:
+            rng.shuffle(perm)
         E = {(min(perm[a], perm[b]), max(perm[a], perm[b])): m for (a, b), m in E.items()}
         deg2 = [0] * n
         for v in range(n):
@@ -598,6 +604,7 @@ def c09_generate(rng, tier):
     a = gen_ewd_cases(rng, count(tier, 300, 4000), nmax=count(tier, 6, 8), viz_share=0.5)
     a += gen_chain_debt_cases(rng, count(tier, 60, 1000))
     a += gen_long_run_cases(rng, count(tier, 6, 40))
+    a += gen_long_path_debt_cases(rng, count(tier, 12, 60))        # burns that take more than ten sweeps
     # which certificate is returned is not pinned down by the property (any valid burn order gives
     # one): the orientation is not compared with the model's edge by edge, it is checked to BE a
     # certificate (c09_judge); verdict, fullness and the reduced divisor are compared
@@ -661,6 +668,10 @@ PROPS["C09"] = {"generate": c09_generate, "judge": c09_judge, "strata": ewd_stra
 # ---- C14
 def c14_generate(rng, tier):
     a = genhist.gen_greedy(rng, count(tier, 250, 3000), nmax=count(tier, 6, 8))
+    # the smallest games: one vertex (no edge at all) with debt, no chips, chips
+    for k in (-3, -1, 0, 2):
+        a.append({"op": "greedy", "n": 1, "edges": [], "names": gen.gen_names(rng, 1), "deg": [k], "_kind": "single", "_genus": 0,
+                  "_band": gen.band_of(k, 0), "_debt": "single"})
     seeds = ["0", "1", "2"] if tier == "quick" else [str(i) for i in range(16)]
     for s in a:
         s["_seeds"] = seeds
@@ -980,6 +991,8 @@ def c18_judge(rec):
                 fails.append("a recorded debt-concentration snapshot has another total degree than the input")
         if s["op"] == "ewd" and p.get("trace") == "ALIASED":
             fails.append("recorded snapshots change when the returned divisor is modified afterwards")
+        if s["op"] == "ewd" and p.get("trace") == "ORIENT-ALIASED":
+            fails.append("a recorded step holds the returned orientation itself: re-orienting an edge of the result changes the recorded step")
         if s["op"] == "ewd" and p.get("trace") == "GRAPH-ALIASED":
             fails.append("recorded snapshots sit on the live graph: editing the graph after the run changes the graph of a recorded step")
         if s["op"] == "elements":
